@@ -3854,7 +3854,7 @@ def SIR_super_compact_pairwise_from_graph(G, tau, gamma,  initial_infecteds=None
                    #but need to be careful with broadcasting...
             return sum((Sk0[k]*(x**k)) for k in Pk)/N
         def psihatPrime(x):
-            return sum(k*Sk0[k]*x**(k-1) for k in Pk)/N
+            return sum(k*Sk0[k]*x**(k-1) for k in Pk if k>0)/N
         def psihatDPrime(x):
             return sum(k*(k-1)*Sk0[k]*x**(k-2) for k in Pk)/N
 
@@ -3869,7 +3869,7 @@ def SIR_super_compact_pairwise_from_graph(G, tau, gamma,  initial_infecteds=None
                    #but need to be careful with broadcasting...
             return (1-rho)*sum(Pk[k]*x**k for k in Pk)
         def psihatPrime(x):
-            return (1-rho)*sum(k*Pk[k]*x**(k-1) for k in Pk)
+            return (1-rho)*sum(k*Pk[k]*x**(k-1) for k in Pk if k>0)
         def psihatDPrime(x):
             return (1-rho)*sum(k*(k-1)*Pk[k]*x**(k-2) for k in Pk)
 
@@ -4757,7 +4757,7 @@ def Attack_rate_discrete(Pk, p, rho = None, Sk0=None,
     def psihat(x):
         return sum(Pk[k]*Sk0[k]*x**k for k in Pk.keys())
     def psihatPrime(x):
-        return sum(k*Pk[k]*Sk0[k]*x**(k-1) for k in Pk.keys())
+        return sum(k*Pk[k]*Sk0[k]*x**(k-1) for k in Pk.keys() if k>0)
 
     if phiS0 == None:
         phiS0 = psihatPrime(1)/sum(k*Pk[k] for k in Pk.keys())
@@ -4872,7 +4872,7 @@ def Attack_rate_cts_time(Pk, tau, gamma, number_its =100, rho = None,
     def psihat(x):
         return sum(Pk[k]*Sk0[k]*x**k for k in Pk.keys())
     def psihatPrime(x):
-        return sum(k*Pk[k]*Sk0[k]*x**(k-1) for k in Pk.keys())
+        return sum(k*Pk[k]*Sk0[k]*x**(k-1) for k in Pk.keys() if k>0)
 
     if phiS0 == None:
         phiS0 = psihatPrime(1)/sum(k*Pk[k] for k in Pk.keys())
@@ -5131,7 +5131,7 @@ def EBCM_discrete_from_graph(G, p, initial_infecteds=None,
         def psihat(x):
             return (1-rho)*sum(Pk[k]*x**k for k in Pk)
         def psihatPrime(x):
-            return (1-rho)*sum(k*Pk[k]*x**(k-1) for k in Pk)
+            return (1-rho)*sum(k*Pk[k]*x**(k-1) for k in Pk if k>0)
         phiS0 = 1-rho
         phiR0 = 0
         R0 = 0
@@ -5298,7 +5298,7 @@ def EBCM_from_graph(G, tau, gamma, initial_infecteds=None,
         def psihat(x):
             return sum(Pk[k]*Sk0[k]*x**k for k in Pk)
         def psihatPrime(x):
-            return sum(k*Pk[k]*Sk0[k]*x**(k-1) for k in Pk)
+            return sum(k*Pk[k]*Sk0[k]*x**(k-1) for k in Pk if k>0)
         phiS0 = SS*1./SX
         phiR0 = SR*1./SX
 
@@ -5308,7 +5308,7 @@ def EBCM_from_graph(G, tau, gamma, initial_infecteds=None,
         def psihat(x):
             return (1-rho)*sum(Pk[k]*x**k for k in Pk)
         def psihatPrime(x):
-            return (1-rho)*sum(k*Pk[k]*x**(k-1) for k in Pk)
+            return (1-rho)*sum(k*Pk[k]*x**(k-1) for k in Pk if k>0)
         phiS0 = 1-rho
         phiR0 = 0
         R0 = 0
